@@ -475,6 +475,16 @@ func (fv *FuncVerifier) evalFuncCall(fn *types.Func, call *ast.CallExpr, st *Sta
 		return fv.evalSpecHelper(fn, call, st)
 	}
 	sp := fv.prog.specs[key]
+	// pragma opaque_calls <names>: in this function, calls of the named functions of other packages
+	// are taken as opaque (the package-level ignorepkg answer) even though a contract exists -
+	// a contract written for one caller must not change how another caller is translated
+	if sp != nil && fn.Pkg() != nil && fn.Pkg().Path() != fv.fd.pkg.PkgPath && fv.specMode == 0 {
+		for _, n := range strings.FieldsFunc(fv.spec.Pragmas["opaque_calls"], func(r rune) bool { return r == ',' || r == ' ' }) {
+			if n == fn.Name() {
+				sp = nil
+			}
+		}
+	}
 	// a contract may be attached to a promoted method under the static receiver type
 	// of the call (e.g. methods of an embedded interface): pkg.T.Method
 	if alt, recvExpr := fv.staticRecvKey(fn, call); alt != "" && alt != key {
